@@ -3,6 +3,8 @@ its own contract."""
 from __future__ import annotations
 
 import ast
+import os
+import sys
 from dataclasses import dataclass, field
 from typing import Any
 
@@ -42,6 +44,8 @@ class Contract:
     locals_sig: dict[str, str] = field(default_factory=dict)  # locals holding lists that need the array encoding
     pure: bool = False  # the result is a function of the arguments (same arguments, same result)
     wf: bool = True  # record parameters are assumed (and required at call sites) to be well-formed
+    at_yield: list[str] = field(default_factory=list)  # @contextmanager: clauses that must hold when the with-body starts
+    kwparam: str = ''  # name of the function's **kwargs parameter: keyword arguments outside `sig` are collected into it
 
     def __post_init__(self):
         # raises clauses may be tagged tuples like ensures; keep plain strings
@@ -316,12 +320,28 @@ def bind_params(ip: Interp, c: Contract, recv, args, kwargs, n) -> dict:
             env[name] = coerce_arg(ip, vals[i], c.sig[name], n)
         elif name in kwargs:
             env[name] = coerce_arg(ip, kwargs[name], c.sig[name], n)
+        elif name == c.kwparam:
+            env[name] = Val.vdict(z3.K(z3.StringSort(), z3.BoolVal(False)), z3.K(z3.StringSort(), Val.none))
         else:
             d = c.defaults.get(name, _MISSING)
             if d is _MISSING:
                 ip.oos(f'call of {c.key}: missing argument {name}', n)
             env[name] = d
     extra = set(kwargs) - set(names)
+    if extra and c.kwparam and c.kwparam not in kwargs:
+        # keyword arguments collected by **kwargs: one dict value (explicit keywords, then the ** mapping on top)
+        if '**' in extra:
+            # f(k1=v1, ..., **m): python raises TypeError for a key given twice, otherwise the union of both
+            d = ip.to_val(kwargs['**'], n)
+            ip.p.oblige('type', Val.is_vdict(d), n, '** argument is a mapping')
+            for k in sorted(extra - {'**'}):
+                ip.p.oblige('type', z3.Not(z3.Select(Val.dkeys(d), z3.StringVal(k))), n, f'keyword {k!r} is not repeated in the ** mapping (TypeError)')
+        else:
+            d = Val.vdict(z3.K(z3.StringSort(), z3.BoolVal(False)), z3.K(z3.StringSort(), Val.none))
+        for k in sorted(extra - {'**'}):
+            d = Val.vdict(z3.Store(Val.dkeys(d), z3.StringVal(k), True), z3.Store(Val.dvals(d), z3.StringVal(k), ip.to_val(kwargs[k], n)))
+        env[c.kwparam] = d
+        extra = set()
     if extra:
         ip.oos(f'call of {c.key}: unexpected keyword {sorted(extra)}', n)
     return env
@@ -578,6 +598,8 @@ def _run_path(ip: Interp, c: Contract, fn: ast.FunctionDef, cls):
     p = ip.p
     a = fn.args
     params = [x.arg for x in a.posonlyargs + a.args + a.kwonlyargs]
+    if a.kwarg is not None:
+        params.append(a.kwarg.arg)  # **settings: one symbolic mapping
     decs = [ast.unparse(d) for d in fn.decorator_list]
     for name in c.sig:
         if name not in params and not name.startswith('ghost_'):
@@ -603,6 +625,16 @@ def _run_path(ip: Interp, c: Contract, fn: ast.FunctionDef, cls):
         ip.yielded = 0
 
         def _cb(_value, ip=ip, gen=gen):
+            if c.at_yield:
+                yenv = dict(ip.env)
+                for pname, was_mutable in getattr(ip, '_param_mutable', {}).items():
+                    if not was_mutable:
+                        yenv[pname] = ip.env[f'old_{pname}']
+                sub = Interp(ip.p, None, yenv, spec=True, fname=f'{ip.fname}<yield>')
+                sub.contract = c
+                for clause in c.at_yield:
+                    t = sub.truth(sub.ev(ast.parse(clause.strip(), mode='eval').body))
+                    ip.p.oblige('yield', t if z3.is_expr(t) else z3.BoolVal(bool(t)), fn, f'when the with-body starts: {clause}', tag='property')
             apply_contract(ip, gen, None, [ip.env['body'], ip.env['self']], {}, fn)
 
         ip.yield_cb = _cb
@@ -694,6 +726,8 @@ def _exceptional_exit(ip: Interp, c: Contract, exc: ExcV, fn):
         if not was_mutable:
             env[name] = env[f'old_{name}']
     env['exc'] = exc
+    if os.environ.get('PYVC_DEBUG'):
+        print('exceptional exit', exc.cls, exc.origin, exc.info, file=sys.stderr)
     if exc.origin and exc.origin.endswith(':other') and c.propagates:
         # an exception of user code passing through unchanged: allowed, with the stated state
         p.oblige('propagate', z3.BoolVal(True), fn, 'foreign exception propagates unchanged', tag='property')
@@ -717,5 +751,6 @@ def _exceptional_exit(ip: Interp, c: Contract, exc: ExcV, fn):
                 p.oblige('raises', t if z3.is_expr(t) else z3.BoolVal(bool(t)), fn, f'on {cls}: {clause}', tag='property')
             return
     names = [n for n in ip.w.exc.names]
+    which = names[exc.cls.as_long()] if z3.is_int_value(exc.cls) else 'a symbolic class'
     p.oblige('no-escape', z3.BoolVal(False), fn,
-             'an exception class outside the contract escapes', tag='property')
+             f'an exception class outside the contract escapes ({which}, origin {exc.origin})', tag='property')
